@@ -529,7 +529,11 @@ class Crossings(SubCheck):
                 if sorted(perm) != list(range(n)):
                     ct = _cycle_type(case["rows"][b]["p"])
                     labels.append("badperm_cycle:" + "+".join(map(str, ct)))
-                    return Outcome.fail("relabelling_not_a_permutation",
+                    # root cause signature = predicate over the INPUT: the recorded defect is that cycles of length >= 3
+                    # are decomposed into overlapping pairwise swaps; a non-permutation for a row whose true relabelling
+                    # consists of disjoint transpositions only would be a different defect and is reported on its own
+                    bk = "relabelling_cycle_ge3_not_a_permutation" if ct and max(ct) >= 3 else "relabelling_not_a_permutation:transpositions_only"
+                    return Outcome.fail(bk,
                                         f"true state permutation {case['rows'][b]['p']} -> swap_to {list(map(int, sw[b]))} completes to {perm}, not a permutation",
                                         labels, True)
         # apply the relabelling through the real update and check that amplitudes are permuted (multiset, norm exact)
